@@ -157,6 +157,55 @@ def rule_counters_shaving(ctx: Ctx, prog: Program) -> None:
     if len(loops) != 1:
         raise AnalysisError(f"{fn.fq}: expected one shaving loop, found {len(loops)}")
     _exactly_one(ctx, fn, "-", "ALG_BC_WITH_SHAVING_NB", _incs(entry, stats, IDX["ALG_BC_WITH_SHAVING_NB"]), True, "at the entry of the shaving algorithm")
+    # ---- counters accumulated in locals and written back when the function returns (`stats[K] += <expression over loop-carried locals>`)
+    loop0 = loops[0]
+    flushed: Dict[int, Aff] = {}
+    for r in res:
+        for e in r.state.trace:
+            if e.kind == "store" and e.root == stats and len(e.idx) == 1 and isinstance(e.idx[0], Aff) and e.idx[0].is_const() and e.aug is not None \
+                    and e.aug[0] == "Add" and isinstance(e.aug[1], Aff) and not e.aug[1].is_const() \
+                    and all(isinstance(a_, tuple) and a_[0] == "lv" and a_[2] == loop0.loop_id for a_ in e.aug[1].atoms()):
+                flushed.setdefault(e.idx[0].c, e.aug[1])
+    name_of = {v: k for k, v in IDX.items()}
+    proxy_delta: Dict[int, Any] = {}
+    if flushed:
+        # (1) every way out of the function writes the accumulated count back exactly once
+        for k_, expr in sorted(flushed.items()):
+            lbl = name_of.get(k_, str(k_))
+            for r in res:
+                if r.outcome != "return":
+                    continue
+                fl = [e for e in r.state.trace if e.kind == "store" and e.root == stats and tuple(e.idx) == (K(k_),) and e.aug is not None and e.aug[0] == "Add"
+                      and isinstance(e.aug[1], Aff) and not e.aug[1].is_const()]
+                if len(fl) != 1:
+                    line = next((e.line for e in reversed(r.state.trace) if e.kind == "return"), fn.node.lineno)
+                    ctx.violation("R-COUNTER", fn.path, fn.name, f"{lbl}:not-written-back", f"{fn.path}:{line}",
+                                  f"{lbl} is accumulated in a local and written back when the function returns, but the exit at line {line} writes it back "
+                                  f"{len(fl)} time(s): the events counted so far are lost (or counted twice) on that path")
+                else:
+                    ctx.ok("R-COUNTER", f"{lbl}: the locally accumulated count is written back on this exit", nontrivial=False)
+
+            def delta(bp_: PathResult, expr_: Aff = expr) -> Optional[int]:
+                tot = K(0)
+                for a_, c_ in expr_.t:
+                    end = it.scalar(bp_.state, bp_.state.env.get(a_[1]))
+                    if not isinstance(end, Aff):
+                        return None
+                    tot = tot + (end - Aff.atom(a_)).scale(c_)
+                return tot.c if tot.is_const() else None
+            proxy_delta[k_] = delta
+
+    def incs_of(bp_: PathResult, key: str) -> List[Event]:
+        """the increments of a counter on a body path: stores, or -- for a locally accumulated counter -- one pseudo event per unit of its
+        accumulator's progress on the path"""
+        k_ = IDX[key]
+        if k_ in proxy_delta and bp_.outcome in ("fall", "continue", "break", "return"):
+            d_ = proxy_delta[k_](bp_)
+            if d_ is None or d_ < 0:
+                return [Event("store", node=loop0.node, root=stats, idx=(K(k_),), aug=("Add", K(2)))]  # not a unit step: reported as 'not a += 1'
+            return [Event("store", node=loop0.node, root=stats, idx=(K(k_),), aug=("Add", ONE)) for _ in range(d_)]
+        return _incs(bp_.events, stats, k_)
+
     n = 0
     for bp in loops[0].paths:
         s = bp.state
@@ -165,9 +214,9 @@ def rule_counters_shaving(ctx: Ctx, prog: Program) -> None:
                 ctx.violation("R-COUNTER", fn.path, fn.name, "foreign-counter", f"{fn.path}:{e.line}", f"shaving modifies statistic {show_val(e.idx[0])}")
         _exactly_one(ctx, fn, "-", "ALG_BC_WITH_SHAVING_NB", _incs(bp.events, stats, IDX["ALG_BC_WITH_SHAVING_NB"]), False, "once per call, not per probe")
         sb = calls_named(bp.events, "shave_bound")
-        _exactly_one(ctx, fn, "-", "ALG_SHAVING_NB", _incs(bp.events, stats, IDX["ALG_SHAVING_NB"]), len(sb) == 1, "for each probe of a bound")
-        ch = _incs(bp.events, stats, IDX["ALG_SHAVING_CHANGE_NB"])
-        nch = _incs(bp.events, stats, IDX["ALG_SHAVING_NO_CHANGE_NB"])
+        _exactly_one(ctx, fn, "-", "ALG_SHAVING_NB", incs_of(bp, "ALG_SHAVING_NB"), len(sb) == 1, "for each probe of a bound")
+        ch = incs_of(bp, "ALG_SHAVING_CHANGE_NB")
+        nch = incs_of(bp, "ALG_SHAVING_NO_CHANGE_NB")
         if len(sb) == 1:
             n += 1
             r = _call_result(bp.events, sb[0])
